@@ -30,8 +30,20 @@ static struct exc_image { char* vptr; char* f1; char rest[144]; } call_exc = { (
 static void throw_kind(char* ti) { thrown_obj = (char*)&call_exc; __VERIF_throw_static(thrown_obj, ti); }
 char* CAST_PFB(char* bv, char* conv) { __CPROVER_assert(((struct BV*)bv)->p == valpool[1], "C03: the callee is the value of the function expression"); if (!fn_is_function) { throw_kind(TI_BAD_BOXED_CAST); thrown_kind = -1; return 0; } return (char*)&the_function; }
 void CAST_SHARED_PFB(char* sret, char* engine, char* bv) { if (!fn_is_shared_function) { throw_kind(TI_BAD_BOXED_CAST); thrown_kind = -1; return; } ((struct BV*)sret)->p = (char*)&the_function; ((struct BV*)sret)->pn = 0; }
+#ifdef VEC_MODEL
+/* std::vector<Boxed_Value> as a recorder over fixed harness storage (the libstdc++ growth code on a byte-addressed temporary: out of memory) */
+static struct BV vstore[4]; static uint64_t reserved_n; static int args_in_order = 1;
+void VEC_CTOR(char* vec) { struct vec3* v = (struct vec3*)vec; v->b = v->e = (char*)&vstore[0]; v->c = (char*)&vstore[4]; }
+void VEC_RESERVE(char* vec, uint64_t n) { reserved_n = n; }
+void VEC_PUSH_BACK(char* vec, char* bv) { struct vec3* v = (struct vec3*)vec; __CPROVER_assert(v->b == (char*)&vstore[0] && v->e < v->c, "BOUND: more than 4 arguments"); __CPROVER_assume(v->e < v->c);
+  *(struct BV*)v->e = *(struct BV*)bv; ((struct BV*)bv)->p = 0; ((struct BV*)bv)->pn = 0; v->e += sizeof(struct BV); }
+#endif
 void FUNC_CALL(char* sret, char* self, char* params, char* conv) {
-  n_call++; struct BV* b = *(struct BV**)params; struct BV* e = *(struct BV**)(params + 8); call_n = (b == e) ? 0 : (uint64_t)(e - b);      /* the elements are not read here: dereferencing a pointer the real code keeps in a byte-addressed temporary makes CBMC case-split over every object (out of memory) */
+  n_call++;
+#ifdef VEC_MODEL
+  { struct BV* b = *(struct BV**)params; struct BV* e = *(struct BV**)(params + 8); for (int i = 0; i < NA; i++) if (!(i < e - b && b[i].p == valpool[3 + i])) args_in_order = 0; }
+#endif
+  struct BV* b = *(struct BV**)params; struct BV* e = *(struct BV**)(params + 8); call_n = (b == e) ? 0 : (uint64_t)(e - b);      /* the elements are not read here: dereferencing a pointer the real code keeps in a byte-addressed temporary makes CBMC case-split over every object (out of memory) */
   thrown_kind = call_beh;
   switch (call_beh) {
     case C_RET: ((struct BV*)sret)->p = (char*)&call_result; ((struct BV*)sret)->pn = 0; return;
@@ -80,6 +92,9 @@ int main(void) {
   if (behav[1] != B_RET) { __CPROVER_assert(__exc_pending && __exc_obj == thrown_obj && n_call == 0, "C10: an exception in the function expression leaves unchanged"); __CPROVER_assert(0, "witness: function expression throws"); return 0; }
   if (!fn_is_function) { __CPROVER_assert(n_call == 0 && __exc_pending && __VERIF_exc_type() == TI_EVAL_ERROR, "C03: calling something that is not a function is an eval_error"); __CPROVER_assert(0, "witness: not a function"); return 0; }
   __CPROVER_assert(n_call == 1 && call_n == NA, "C06: the callee is entered once, with as many values as there are arguments (they are the argument values in evaluation order: std::vector::push_back)");
+#ifdef VEC_MODEL
+  __CPROVER_assert(args_in_order, "C06: the callee receives exactly the argument values, in source order");
+#endif
   switch (call_beh) {
     case C_RET: __CPROVER_assert(!__exc_pending && out.p == (char*)&call_result, "C03: the value of a call is the callee's result"); __CPROVER_assert(0, "witness: call returns"); break;
     case C_RETURN: __CPROVER_assert(!__exc_pending && out.p == (char*)&rv_value, "C03: a return statement's value becomes the value of the call"); __CPROVER_assert(0, "witness: return value"); break;
